@@ -105,6 +105,8 @@ pub struct Machine<'a> {
     stmts: HashMap<Id, &'a Stmt>,
     frames: Vec<Frame>,
     statics: HashMap<String, Frame>,
+    /// STATIC subprograms that are running: the frame of their innermost activation
+    static_active: HashMap<String, usize>,
     shared: BTreeSet<String>,
     data: Vec<DataItem>,
     data_pos: usize,
@@ -153,6 +155,7 @@ impl<'a> Machine<'a> {
             stmts: HashMap::new(),
             frames: vec![Frame::default()],
             statics: HashMap::new(),
+            static_active: HashMap::new(),
             shared: BTreeSet::new(),
             data: vec![],
             data_pos: 0,
@@ -689,11 +692,15 @@ impl<'a> Machine<'a> {
             return inexact("recursion too deep for the reference");
         }
         let key = up(&def.name);
-        let mut frame = if def.is_static {
-            self.statics.remove(&key).unwrap_or_default()
-        } else {
-            Frame::default()
+        // a STATIC subprogram that is already active (it calls itself): the activations share the variables;
+        // the new activation starts from what the running one has, and hands everything but its parameters back
+        let outer_static_fx: Option<usize> = if def.is_static { self.static_active.get(&key).copied() } else { None };
+        let mut frame = match outer_static_fx {
+            Some(ofx) => self.frames[ofx].clone(),
+            None if def.is_static => self.statics.remove(&key).unwrap_or_default(),
+            None => Frame::default(),
         };
+        let mut param_keys: Vec<String> = vec![];
         frame.proc_ix = px;
         frame.for_state.clear();
         frame.sel.clear();
@@ -753,20 +760,56 @@ impl<'a> Machine<'a> {
                     _ => return inexact("by-value argument for a non-scalar parameter"),
                 }
             };
+            param_keys.push(pkey.clone());
             frame.vars.insert(pkey, v);
         }
         self.frames.push(frame);
         let new_fx = self.frames.len() - 1;
+        let previous_active = if def.is_static { self.static_active.insert(key.clone(), new_fx) } else { None };
         self.depth += 1;
         let r = self.run(px, new_fx);
         self.depth -= 1;
         let frame = self.frames.pop().unwrap();
+        if def.is_static {
+            match previous_active {
+                Some(p) => {
+                    self.static_active.insert(key.clone(), p);
+                }
+                None => {
+                    self.static_active.remove(&key);
+                }
+            }
+        }
         match r {
             Err(stop) => {
                 self.pending_stop = Some(stop);
                 return Err(RErr::Inexact("__stop__".into()));
             }
             Ok(()) => {}
+        }
+        if let Some(ofx) = outer_static_fx {
+            // back in the activation that made the call: the shared variables as the callee left them,
+            // its own parameters and result as they were (before the by-reference arguments are written back)
+            let mut keep = frame.clone();
+            let outer = &self.frames[ofx];
+            let mut own: Vec<(String, Option<V>)> = param_keys.iter().map(|k| (k.clone(), outer.vars.get(k).cloned())).collect();
+            if def.is_function {
+                let ty = self.function_type(def);
+                let rkey = format!("{}{}", split_suffix(&def.name).0, ty.suffix());
+                own.push((rkey.clone(), outer.vars.get(&rkey).cloned()));
+            }
+            for (k, v) in own {
+                match v {
+                    Some(v) => {
+                        keep.vars.insert(k, v);
+                    }
+                    None => {
+                        keep.vars.remove(&k);
+                    }
+                }
+            }
+            self.frames[ofx].vars = keep.vars;
+            self.frames[ofx].decl = keep.decl;
         }
         // copy back, left to right
         for (i, pkey) in by_ref {
@@ -807,7 +850,9 @@ impl<'a> Machine<'a> {
                 let ty = self.function_type(def);
                 keep.vars.remove(&format!("{}{}", split_suffix(&def.name).0, ty.suffix()));
             }
-            self.statics.insert(key, keep);
+            if outer_static_fx.is_none() {
+                self.statics.insert(key, keep);
+            }
         }
         Ok(result)
     }
